@@ -241,10 +241,26 @@ Deliver(id) ==
             /\ biasQ' = [biasQ EXCEPT ![e.who] = @ \cup {id}]
             /\ UNCHANGED <<targets, sensors, engT, engS, truthAt, estAt, queue, estQueue, pointing>>
        [] e.kind = "priority" ->
-            /\ e.tgt \in engT[eng]          \* the handler indexes the engine's target list
+            /\ (PriorityToAllEngines => e.tgt \in engT[eng])   \* as coded (D1): the handler indexed the target list and raised
             /\ UNCHANGED <<targets, sensors, engT, engS, truthAt, estAt, queue, estQueue, biasQ, pointing>>
   /\ UNCHANGED <<k, pc, eng, todo, estObs, pend, visM, decision, slewOK, hit, obsStep, missStep, missHeld, changes,
                  savedObs, savedMiss, db, alive, applied, appliedEst>>
+
+\* Scenario.stepForward: a maneuver event whose agent is not (or no longer, or not yet) a target of the scenario,
+\* and a time-bias event whose sensor is not in it, are skipped with a warning - neither handed over nor do they
+\* stop the step (D43, D50); a priority event is still handed to its engine, whose handler ignores a target the
+\* engine does not track (any more)
+Absent == "absent"
+SkipAbsent(id) ==
+  LET e == Ev(id) IN
+  /\ e \in MustHandle /\ id \notin handled
+  /\ \/ e.kind \in PropKinds /\ e.who \notin targets
+     \/ e.kind = "bias" /\ e.who \notin sensors          \* a time bias of a sensor that has left the scenario
+  /\ handled' = handled \cup {id}
+  /\ delivered' = [delivered EXCEPT ![id] = Append(@, <<PhaseStep, Absent>>)]
+  /\ UNCHANGED <<k, pc, eng, todo, targets, sensors, engT, engS, truthAt, estAt, estObs, pend, visM, decision, slewOK, hit,
+                 obsStep, missStep, missHeld, changes, pointing, savedObs, savedMiss, db, alive,
+                 queue, estQueue, applied, appliedEst, biasQ>>
 
 EndStepEvents ==
   /\ pc = "stepev" /\ AllHandled
@@ -490,7 +506,7 @@ Next ==
   \/ BeginStep \/ EndStepEvents \/ TicToc \/ JoinPropagate \/ JoinPredict \/ EndBiasEvents
   \/ RewardJoined \/ Decide \/ ApplyChanges \/ NextEngine \/ NoEngines \/ JoinUpdate
   \/ SaveOutput \/ SkipOutput \/ SaveFail
-  \/ \E id \in EventIds : Deliver(id)
+  \/ \E id \in EventIds : Deliver(id) \/ SkipAbsent(id)
   \/ \E a \in Universe : CompletePropagate(a)
   \/ \E t \in Targets : \/ CompletePredict(t) \/ CompleteUpdate(t)
                         \/ \E row \in SUBSET Sensors : CompleteReward(t, row)
@@ -525,13 +541,14 @@ DurationActiveExactly ==
         /\ (~PriorityToAllEngines => Len(delivered[e.id]) = Cardinality(HandledSteps(e.id)))
 \* only the engine / agent an event names ever handles it
 OnlyAddressee ==
-  \A e \in Events : \A i \in DOMAIN delivered[e.id] : delivered[e.id][i][2] = e.who
+  \A e \in Events : \A i \in DOMAIN delivered[e.id] : delivered[e.id][i][2] \in {e.who, Absent}
 \* an impulse changes the truth velocity (and the estimate's, when planned) exactly once
 DvOnce ==
   pc = "idle" =>
     \A e \in Events : (e.kind = "impulse" /\ e.t0 >= 1 /\ StepOf(e.t0) <= k) =>
-        /\ applied[e.id] = 1
-        /\ (WithEstimation => appliedEst[e.id] = IF e.planned THEN 1 ELSE 0)
+        LET skipped == \E i \in DOMAIN delivered[e.id] : delivered[e.id][i][2] = Absent IN   \* addressee not in the scenario
+        /\ applied[e.id] = IF skipped THEN 0 ELSE 1
+        /\ (WithEstimation => appliedEst[e.id] = IF e.planned /\ ~skipped THEN 1 ELSE 0)
 NeverTwice == \A id \in EventIds : applied[id] <= 1 /\ appliedEst[id] <= 1
 \* a time bias is active at an observation instant iff that instant lies in its closed interval
 BiasActiveExactly ==
